@@ -74,6 +74,8 @@ pub static SCHEMA_PROBE_TO_HANDLER: std::sync::atomic::AtomicBool = std::sync::a
 /// bit i set = node i of the configuration is not (or no longer) a member: it is left out of every `system.peers` answer
 /// (its slot, address and listener index stay, so that it can join again)
 pub static HIDDEN_NODES: std::sync::atomic::AtomicU32 = std::sync::atomic::AtomicU32::new(0);
+/// every answer to a system-table query is held back this many milliseconds (a busy node: each page slow, none too slow)
+pub static SYS_DELAY_MS: std::sync::atomic::AtomicU64 = std::sync::atomic::AtomicU64::new(0);
 /// index of a node that currently accepts no NEW connections (they are closed at once; established ones live on), or -1
 pub static REFUSE_NODE: std::sync::atomic::AtomicI32 = std::sync::atomic::AtomicI32::new(-1);
 
@@ -704,6 +706,10 @@ async fn handle_statement(shared: &Arc<Shared>, stream: &mut TcpStream, c: &mut 
                 system::answer_rows(&cfg, c.node, &q, &req)
             };
             let ctx = ReqCtx { stream: f.stream, kind: "system" };
+            let d = SYS_DELAY_MS.load(Ordering::SeqCst);
+            if d > 0 {
+                tokio::time::sleep(std::time::Duration::from_millis(d)).await;
+            }
             write_reply(shared, stream, c, ctx, None, &reply).await.err()
         }
     }
